@@ -33,7 +33,7 @@ Shapes == {
   <<"spread_args", Obj(<< <<"props", UP>> >>)>>,                           \* defineComponent(...args)
   <<"nonfn_first", Null>>                                                  \* defineComponent({ setup() {…}, props: ['u'] })
 }
-Provenances == {"vue_named", "vue_alias", "vue_namespace", "local_function", "shadowed_param", "other_module", "alias_plus_other"}
+Provenances == {"vue_named", "vue_alias", "vue_namespace", "local_function", "shadowed_param", "other_module", "alias_plus_other", "alias_plus_local"}
 DeclKinds == {"const", "let", "var", "export_const", "export_default", "assignment", "bare"}
 
 Raw == {[shape |-> sh[1], user |-> sh[2], prov |-> pv, decl |-> dk, resolveType |-> rt] :
